@@ -12,6 +12,7 @@ RULE = ('pages with 0-14 regions with unique ids: grids, columns, mutually overl
         'zero-height boxes, random polygons, nested; lines horizontal and slanted (non-zero de-skew); both sorters; FakeIntersectionParameter 0-0.5; '
         'ImageWidthDenominator 1-1500. non-trivial = at least 2 regions; distinct = hash of the page description and sorter parameters Lines without ids or with one id per region; one region given by one or two points (no skew). Pages of 1050 / 1200 mutually overlapping regions; region types; layouts without a page size.')
 RULE += ' Round 6: Spiral pages of 40-64 nested regions; long-lived sorters whose first page is a thumbnail; scans of different widths.'
+RULE += ' Round 7: The region and line objects handed in keep their geometry whether or not the page returns them.'
 ASSUMPTIONS = ['regions have unique ids; outlines have at least 3 points, except in the class line_outline (one region given by one or two points, only on pages without skew: on a skewed page the de-skew rotation builds a shapely polygon from every outline, which is impossible for fewer than three points - not a polygon in the sense of the quantifier)', 'the naive sorter is driven with eps >= 1 (DBSCAN rejects eps = 0)',
                'termination is decided as bounded progress: traced line events inside the sorter modules stay below STEP_BUDGET(n); a hang inside a binary dependency would show as the wall-clock watchdog (inconclusive)',
                'geometry tolerance: boundaries within 1e-6 px of each other (Hausdorff distance) and equal area (de-skew rotates there and back in float64); GEOS overlay operations are not used because they are unreliable for nearly coincident polygons']
